@@ -527,9 +527,7 @@ def call_builtin(interp, name, args, kwargs, site):
             if pr.exc.cls == "AttributeError" and len(args) > 2:
                 return args[2]
             raise
-        if isinstance(r, PropertyCall):
-            return (yield from interp.call(r.prop.fget, [r.obj], {}))
-        return r
+        return (yield from interp.resolve_attr(r))
     if name == "callable":
         v = args[0]
         if isinstance(v, (UserFn, Closure, BoundMethod, Builtin, Partial, ClassVal, AwaitifyWrapped)):
